@@ -206,4 +206,23 @@ unencapsulated while pool 1 stays (no restart): Felix stops programming pool 0's
 example : let s := (Dyn.setClass felixTable guards felixTable.dflt (Dyn.start felixTable guards felixTable.dflt [.ipip, .ipip, .noEncap]) 0 .noEncap)
     s.2 = false ∧ s.1.programs 0 = false ∧ s.1.programs 1 = false ∧ s.1.programs 2 = true := by decide
 
+/-! ## confd side: the effective policy is a function of the CURRENT resource -/
+
+/-- After any history of syncer events for BGPConfiguration `default`, the cached resource is that
+of the LAST event (whatever was cached before). -/
+theorem confd_last_event_wins (st : Option (Option Str)) (hist : List BgpEvent) (e : BgpEvent) :
+    confdRun st (hist ++ [e]) = confdStep none e := by
+  simp only [confdRun, List.foldl_append, List.foldl_cons, List.foldl_nil]
+  cases e <;> rfl
+
+/-- … so the policy BIRD's filter is rendered from is that of the last event; after a delete it is
+the default, exactly as if the setting were absent. -/
+theorem confd_policy_after_history (st : Option (Option Str)) (hist : List BgpEvent) :
+    (∀ v, bgpPolicy bgpTable (confdSetting (confdRun st (hist ++ [.set v]))) = bgpPolicy bgpTable v) ∧
+    bgpPolicy bgpTable (confdSetting (confdRun st (hist ++ [.del]))) = bgpPolicy bgpTable none ∧
+    bgpPolicy bgpTable none = bgpTable.dflt := by
+  refine ⟨fun v => ?_, ?_, rfl⟩ <;> rw [confd_last_event_wins] <;> rfl
+
+example : confdSetting (confdRun none [.set (some [69]), .del]) = none := by decide
+
 end CalicoVerif.C28
